@@ -43,10 +43,11 @@ EXT_SRC = [
     "date('20200101') + 0.5",
     "1" + "0" * 400,                 # an int beyond the range of a double
     "0 - 1" + "0" * 400,
+    "1" + "0" * 5000,                # beyond the host's int <-> text limit
 ]
-EXT_KIND = ["decimal"] * 6 + ["int"] * 5 + ["date"] * 3 + ["int"] * 2
+EXT_KIND = ["decimal"] * 6 + ["int"] * 5 + ["date"] * 3 + ["int"] * 3
 EXT_DECIMAL = set(range(N, N + 6))
-EXT_BIGINT = set(range(N + 6, N + 11)) | {N + 14, N + 15}
+EXT_BIGINT = set(range(N + 6, N + 11)) | {N + 14, N + 15, N + 16}
 POOL_SRC = POOL_SRC + EXT_SRC
 POOL_KIND = POOL_KIND + EXT_KIND
 N_EXT = len(POOL_SRC)
